@@ -13,9 +13,12 @@ ASSUMPTIONS = ["hardware IEEE-754 arithmetic equals Python's float arithmetic an
 default_compare = lambda m, i: C.compare_run(m, i, line=True)
 
 PRELUDE = ('নাম ক = ৫;\nনাম খ = "পা";\nনাম গ = সত্য;\nনাম ঘ = [১, ২];\nনাম ঙ = ২.৫;\nনাম চ = []; নাম ছ = ০.১; নাম জ = ৯০০৭১৯৯২৫৪৭৪০৯৯২; নাম শূ; নাম নথি = @{"k" -> ১};\n'
-           'ফাং দ্বিগুণ(x) { ফেরত x * ২; } ফেরত;\nফাং যোগ(a, b) { ফেরত a + b; } ফেরত;\nফাং উল্টো(b) { ফেরত !b; } ফেরত;\n')
+           'ফাং দ্বিগুণ(x) { ফেরত x * ২; } ফেরত;\nফাং যোগ(a, b) { ফেরত a + b; } ফেরত;\nফাং উল্টো(b) { ফেরত !b; } ফেরত;\n'
+           # the caller's own variables named like the functions' parameters (arguments are evaluated in the CALLER's scopes)
+           'নাম a = ১০; নাম b = ৩; নাম x = ৭;\n')
 VARS = {"ক": ("num", 5.0), "খ": ("str", "পা"), "গ": ("bool", True), "ঘ": ("list", 1, [("num", 1.0), ("num", 2.0)]),
-        "ঙ": ("num", 2.5), "চ": ("list", 2, []), "ছ": ("num", 0.1), "জ": ("num", 9007199254740992.0)}
+        "ঙ": ("num", 2.5), "চ": ("list", 2, []), "ছ": ("num", 0.1), "জ": ("num", 9007199254740992.0),
+        "a": ("num", 10.0), "b": ("num", 3.0), "x": ("num", 7.0)}
 PRELUDE_LINES = PRELUDE.count("\n")
 
 
@@ -308,6 +311,23 @@ def cases(rng, tier, stats):
                         out.append(C.Case("container-identity", ["RUN " + C.hx(src)], default_compare, oracle, info={"src": src[-160:], "want": want}))
                         ni += 1
     stats["container_identity"] = ni
+    # arguments are evaluated in the caller's scopes, all of them before any parameter is bound: caller variables named like the
+    # callee's parameters, in swapped / shifted positions, nested calls of the same function inside its own arguments
+    na = 0
+    A, B, X_ = G.var("a"), G.var("b"), G.var("x")
+    argsets = [(B, A), (G.num(1), A), (A, A), (B, B), (G.bin_("-", A, B), G.bin_("%", A, B)), (G.call("যোগ", B, A), A),
+               (B, G.call("যোগ", B, A)), (G.call("দ্বিগুণ", B), G.call("দ্বিগুণ", A)), (G.bin_("*", B, G.num(2)), G.bin_("+", A, X_))]
+    for (p, q) in argsets:
+        for e in (G.call("যোগ", p, q), G.bin_("-", G.call("যোগ", p, q), G.call("যোগ", q, p)), G.bin_("==", G.call("যোগ", p, q), G.bin_("+", p, q)),
+                  G.call("দ্বিগুণ", G.call("যোগ", p, q)), G.call("যোগ", G.call("দ্বিগুণ", X_), G.bin_("+", X_, q))):
+            try:
+                want = render_val(Eval().ev(e))
+            except TypeErr:
+                want = "TYPEERROR"
+            src = PRELUDE + G.render(G.toks_stmt(("print", e)), "minimal") + "\n"
+            out.append(C.Case("argument-name-collision", ["RUN " + C.hx(src)], default_compare, oracle, info={"src": src[-160:], "want": want}))
+            na += 1
+    stats["argument_name_collision"] = na
     # the complete operator x operand-type table (13 binary operators x 7 x 7 runtime types, 2 unary x 7): which cells
     # evaluate and which are type errors is a finite table — enumerated against the model, whose table is proved (C01.*_table)
     tvals = [G.num(3), G.b(True), G.s("ক"), G.var("ঘ"), G.var("নথি"), G.var("দ্বিগুণ"), G.var("শূ")]
